@@ -172,7 +172,7 @@ func (p *Program) computeProtected() {
 		if sig.Results().Len() >= 1 {
 			if pt, ok := sig.Results().At(0).Type().(*types.Pointer); ok {
 				if n, ok := pt.Elem().(*types.Named); ok && f.Pkg != nil && n.Obj().Pkg() == f.Pkg.Pkg {
-					if _, isStruct := n.Underlying().(*types.Struct); isStruct && sig.Recv() == nil {
+					if _, isStruct := n.Underlying().(*types.Struct); isStruct && sig.Recv() == nil && allocatesType(f, n) {
 						prot = true
 						// an unexported constructor with a single call site is that caller's own literal moved
 						// into a function: a helper
@@ -221,6 +221,20 @@ func (p *Program) staticCallSites(f *ssa.Function) int {
 		n++
 	}
 	return n
+}
+
+// allocatesType: f itself allocates a value of the named struct type (a wrapper around another constructor does not).
+func allocatesType(f *ssa.Function, n *types.Named) bool {
+	for _, b := range f.Blocks {
+		for _, in := range b.Instrs {
+			if a, ok := in.(*ssa.Alloc); ok {
+				if pt, ok := a.Type().(*types.Pointer); ok && types.Identical(pt.Elem(), n) {
+					return true
+				}
+			}
+		}
+	}
+	return false
 }
 
 func (p *Program) soleSiteInLoop(f *ssa.Function) bool {
